@@ -52,11 +52,14 @@ ORDERED = {'zip', 'enumerate', 'next', 'last', 'nth', 'position', 'rposition', '
 UNORDERED_CONTAINERS = re.compile(
     r'^(std::collections::hash::map::HashMap|std::collections::hash::set::HashSet|alloc::collections::btree::map::BTreeMap|'
     r'alloc::collections::btree::set::BTreeSet|%s::headers::headers::Headers|http::header::map::HeaderMap)\b' % HT)
-SORTS = ['core::slice::<impl [T]>::sort', 'core::slice::<impl [T]>::sort_by', 'core::slice::<impl [T]>::sort_by_key',
-         'core::slice::<impl [T]>::sort_unstable', 'core::slice::<impl [T]>::sort_unstable_by',
-         'core::slice::<impl [T]>::sort_unstable_by_key', 'core::slice::<impl [T]>::sort_by_cached_key',
-         'alloc::slice::<impl [T]>::sort', 'alloc::slice::<impl [T]>::sort_by', 'alloc::slice::<impl [T]>::sort_by_key',
+# only *stable* sorts make a collected hash-ordered sequence deterministic: elements with equal keys (the values of one header name)
+# keep their pre-sort order, which is the Vec order of that map entry; an unstable sort may permute them depending on the
+# input permutation, i.e. on the hash seed
+SORTS = ['alloc::slice::<impl [T]>::sort', 'alloc::slice::<impl [T]>::sort_by', 'alloc::slice::<impl [T]>::sort_by_key',
          'alloc::slice::<impl [T]>::sort_by_cached_key']
+UNSTABLE_SORTS = ['core::slice::<impl [T]>::sort_unstable', 'core::slice::<impl [T]>::sort_unstable_by',
+                  'core::slice::<impl [T]>::sort_unstable_by_key', 'core::slice::<impl [T]>::select_nth_unstable',
+                  'core::slice::<impl [T]>::select_nth_unstable_by', 'core::slice::<impl [T]>::select_nth_unstable_by_key']
 
 # calls allowed inside a loop over a hash-ordered iterator: conversions and inserts into another unordered container
 LOOP_BODY_OK = {'next', 'into_iter', 'iter', 'as_str', 'as_bytes', 'from_bytes', 'from_str', 'unwrap', 'expect', 'clone',
@@ -109,7 +112,10 @@ def classify(fn, local, crate, seen=None, depth=0):
                 if UNORDERED_CONTAINERS.match(target):
                     out.append(('ok', 'collected into %s' % target.split('<')[0], bb))
                 elif sorted_before_use(fn, t['d']['l'], bb):
-                    out.append(('ok', 'collected into %s and sorted before any other use' % target, bb))
+                    out.append(('ok', 'collected into %s and stably sorted before any other use' % target, bb))
+                elif any(s2[0] == 'callarg' and call_matches(s2[2], UNSTABLE_SORTS) for s2 in flows_to(fn, t['d']['l'], whole_only=True)):
+                    out.append(('bad', 'collected into %s and sorted with an UNSTABLE sort: elements with equal keys end up in an order that depends '
+                                'on the hash-ordered input permutation' % target, bb))
                 else:
                     out.append(('bad', 'collected into ordered %s without a sort before use' % target, bb))
             elif k == 0 and is_iter_method and name == 'next':
@@ -173,11 +179,12 @@ def sorted_before_use(fn, vec_local, collect_bb):
 def loop_body(fn, next_bb):
     body = None
     for h, blocks in fn.loops():
-        if next_bb in blocks and (body is None or len(blocks) < len(body)):
-            body = blocks
+        if next_bb in blocks and (body is None or len(blocks) > len(body)):
+            body = blocks  # the outermost loop driven by this iterator (inner loops over one item's values are part of it)
     if body is None:
         return ('unclassified', 'loop not recognised', next_bb)
     inserts = 0
+    pushed = set()
     for b in sorted(body):
         t = fn.blocks[b]['t']
         if t['k'] != 'call':
@@ -187,12 +194,52 @@ def loop_body(fn, next_bb):
         if LOOP_BODY_INSERTS.search(c) or LOOP_BODY_INSERTS.search(norm(t.get('resolved') or '')):
             inserts += 1
             continue
-        if name in LOOP_BODY_OK or name in ('into_bytes', 'into_string'):
+        if call_matches(t, ['alloc::vec::Vec::push', 'alloc::vec::Vec::extend_from_slice', 'alloc::vec::Vec::insert']):
+            # pushing in hash order is fine only if the vector is stably sorted before anything else reads it
+            vecs = set()
+            for o in origins(fn, t['args'][0]):
+                if o.kind == 'call' and call_matches(o.term, ['alloc::vec::Vec::new', 'alloc::vec::Vec::with_capacity']):
+                    vecs.add(o.term['d']['l'])
+                else:
+                    vecs.add(None)
+            if None in vecs or len(vecs) != 1:
+                return ('unclassified', 'loop over hash-ordered items pushes into a vector of unknown origin', b)
+            pushed |= vecs
+            continue
+        if name in LOOP_BODY_OK or name in ('into_bytes', 'into_string', 'to_string'):
             continue
         if any(m in ('format', 'format_args') for m in (t.get('x') or [])):
             continue  # building a string from one item
         return ('unclassified', 'loop over hash-ordered items calls %s' % c, b)
+    for v in pushed:
+        if not sorted_after_loop(fn, v, body):
+            return ('bad', 'loop pushes hash-ordered items into a Vec that is not stably sorted before it is used', next_bb)
+    if pushed:
+        return ('ok', 'loop pushes into a Vec that is stably sorted before any use outside the loop', next_bb)
     return ('ok', 'loop body only converts and inserts into another unordered container (%d insert call(s))' % inserts, next_bb)
+
+
+def sorted_after_loop(fn, vec_local, body):
+    """every use of the Vec outside the filling loop lies in a block dominated by a stable sort of it"""
+    sinks = flows_to(fn, vec_local, whole_only=True)
+    sorts = [s for s in sinks if s[0] == 'callarg' and call_matches(s[2], SORTS) and s[3] == 0 and s[1] not in body]
+    if not sorts:
+        return False
+    sb = sorts[0][1]
+    feeding = set(sorts[0][4])
+    for u in fn.uses(vec_local):
+        if u[0] == 'drop':
+            continue
+        bb = u[1]
+        if bb in body:
+            continue
+        dest = u[3]['d']['l'] if u[0] == 'stmt' else (u[2]['d']['l'] if u[0] == 'callarg' else None)
+        if dest in feeding and fn.dominates(bb, sb):
+            continue
+        if bb != sb and fn.dominates(sb, bb):
+            continue
+        return False
+    return True
 
 
 def find_wrappers(crates):
